@@ -29,6 +29,20 @@
 #define PAY (KP + VS)
 #define NA (NN > 0 ? NN : 1)
 
+#define SUPER_FIELDS(X) X(magic) X(inode_count) X(modification_time) X(block_size) \
+	X(fragment_entry_count) X(compression_id) X(block_log) X(flags) X(id_count) \
+	X(version_major) X(version_minor) X(root_inode_ref) X(bytes_used) \
+	X(id_table_start) X(xattr_id_table_start) X(inode_table_start) \
+	X(directory_table_start) X(fragment_table_start) X(export_table_start)
+
+static bool super_eq(const sqfs_super_t *a, const sqfs_super_t *b)
+{
+#define X(f) if (a->f != b->f) return false;
+	SUPER_FIELDS(X)
+#undef X
+	return true;
+}
+
 typedef struct {
 	rbtree_node_t n;
 	sqfs_u8 payload[PAY];
@@ -45,13 +59,14 @@ void harness(void)
 	c19_obj_t *mdir, *mino;
 	unsigned did, iid, nobj0, calls0;
 	node_wrap_t *on[NA];
-	sqfs_u8 v[NA], vs;
-	size_t k = verif_nd_size("witness"), ks = verif_nd_size("w_super");
+	sqfs_u8 v[NA];
+	sqfs_super_t super;
+	size_t k = verif_nd_size("witness");
 	bool order = verif_nd_bool("order");
 	long live0;
 	int i;
 
-	VERIF_ASSUME(k < PAY && ks < sizeof(sqfs_super_t));
+	VERIF_ASSUME(k < PAY);
 	VERIF_ASSERT(sizeof(node_wrap_t) == 24 + 16 &&
 		     offsetof(node_wrap_t, payload) == offsetof(rbtree_node_t, data),
 		     C19_OB("env.wrapper_layout"));
@@ -65,8 +80,11 @@ void harness(void)
 	o->base.copy = dir_reader_copy;
 	o->meta_dir = (sqfs_meta_reader_t *)mdir;
 	o->meta_inode = (sqfs_meta_reader_t *)mino;
-	vs = verif_nd_u8("super");
-	((sqfs_u8 *)&o->super)[ks] = vs;
+#define X(f) super.f = (__typeof__(super.f))(verif_nd_u64("super") & \
+		(sizeof(super.f) == 8 ? ~0ULL : ((1ULL << (8 * (sizeof(super.f) & 7))) - 1)));
+	SUPER_FIELDS(X)
+#undef X
+	o->super = super;
 	o->flags = DOT ? SQFS_DIR_READER_DOT_ENTRIES : 0;
 	(memset)(&o->dcache, 0, sizeof(o->dcache));
 	if (DOT) {
@@ -98,7 +116,7 @@ void harness(void)
 		     o->base.copy == dir_reader_copy &&
 		     o->meta_dir == (sqfs_meta_reader_t *)mdir &&
 		     o->meta_inode == (sqfs_meta_reader_t *)mino &&
-		     ((sqfs_u8 *)&o->super)[ks] == vs &&
+		     super_eq(&o->super, &super) &&
 		     o->flags == (DOT ? SQFS_DIR_READER_DOT_ENTRIES : 0) &&
 		     !g_obj_destroyed[did] && !g_obj_destroyed[iid] &&
 		     mdir->base.refcount == 1 && mino->base.refcount == 1,
@@ -129,7 +147,7 @@ void harness(void)
 		c->base.copy = dir_reader_copy;
 		c->base.refcount = 1;
 		VERIF_ASSERT(!VERIF_SAME_OBJECT(c, o), C19_OB("fresh"));
-		VERIF_ASSERT(((sqfs_u8 *)&c->super)[ks] == vs && c->flags == o->flags,
+		VERIF_ASSERT(super_eq(&c->super, &super) && c->flags == o->flags,
 			     C19_OB("fresh"));
 		VERIF_ASSERT(g_obj_n == nobj0 + 2 && c->meta_dir != NULL &&
 			     c->meta_inode != NULL && c->meta_dir != c->meta_inode &&
@@ -173,8 +191,8 @@ void harness(void)
 		} else {
 			VERIF_ASSERT(c->dcache.root == NULL, C19_OB("fresh"));
 		}
-		((sqfs_u8 *)&c->super)[ks] = vs ^ 0xFF;
-		VERIF_ASSERT(((sqfs_u8 *)&o->super)[ks] == vs, C19_OB("independent"));
+		c->super.bytes_used = ~super.bytes_used;
+		VERIF_ASSERT(super_eq(&o->super, &super), C19_OB("independent"));
 	}
 
 	if (c != NULL && order) {
